@@ -210,6 +210,12 @@ func runC15(run *Run, seed int64, cfg c15Cfg) (out []*c01Result, cells map[strin
 		nd.Del.State = canary("state", i)
 		nd.AckPayload = canary("ack", i)
 		tap.canaries = append(tap.canaries, nd.Del.State, nd.AckPayload)
+		if i == 2 {
+			// one node's application state is large (and does not compress): its exchanges are far beyond 64 KiB on the wire
+			blob := make([]byte, 150<<10)
+			rand.New(rand.NewSource(seed + 77)).Read(blob)
+			nd.Del.State = append(append([]byte(nil), nd.Del.State...), blob...)
+		}
 		tap.mu.Lock()
 		tap.nodes[nd.EP.Addr] = nd
 		tap.mu.Unlock()
@@ -252,6 +258,9 @@ func runC15(run *Run, seed int64, cfg c15Cfg) (out []*c01Result, cells map[strin
 	if nb := find(A, B); nb != nil {
 		_ = A.ML().SendBestEffort(nb, up(1))
 		_ = A.ML().SendReliable(nb, up(2))
+		bigUser := make([]byte, 120<<10)
+		rand.New(rand.NewSource(seed + 78)).Read(bigUser)
+		_ = A.ML().SendReliable(nb, append(up(4), bigUser...))
 		_ = A.ML().SendToAddress(memberlist.Address{Addr: B.EP.Addr, Name: B.Name}, up(3))
 	}
 	for i := 0; i < 6; i++ {
